@@ -23,6 +23,25 @@ HERE = os.path.dirname(os.path.dirname(os.path.abspath(__file__)))
 VENV_PY = '/venv/bin/python'
 
 
+def install_arena_shim():
+    """Performance only (see native/arena_shim.c); silently skipped on failure."""
+    try:
+        import ctypes
+        build = os.path.join(HERE, 'build')
+        so = os.path.join(build, 'arena_shim.so')
+        src = os.path.join(HERE, 'pyvc', 'native', 'arena_shim.c')
+        if not os.path.exists(so) or os.path.getmtime(so) < os.path.getmtime(src):
+            os.makedirs(build, exist_ok=True)
+            tmp = so + f'.{os.getpid()}.tmp'
+            subprocess.run(['cc', '-O2', '-shared', '-fPIC', '-o', tmp, src], check=True,
+                           capture_output=True)
+            os.replace(tmp, so)
+        ctypes.PyDLL(so).pyvc_install_arena_shim()
+        return True
+    except Exception:
+        return False
+
+
 def git_state(repo):
     try:
         head = subprocess.run(['git', '-C', repo, 'rev-parse', 'HEAD'], capture_output=True, text=True).stdout.strip()
@@ -47,7 +66,7 @@ def collect_items(mod):
 
 
 def worker(job):
-    repo, pid, kind, idx = job
+    repo, pid, kind, idx, only = job
     t0 = time.time()
     try:
         sys.setrecursionlimit(20000)
@@ -59,10 +78,10 @@ def worker(job):
             vr.register(importlib.import_module(m).CONTRACTS)
         if kind == 'contract':
             c = mod.CONTRACTS[idx]
-            rep = vr.verify_contract(c)
+            rep = vr.verify_contract(c, only)
         else:
             c = mod.LEMMAS[idx]
-            rep = vr.verify_lemma(c)
+            rep = vr.verify_lemma(c, only)
         return report_to_dict(rep, vr, kind, time.time() - t0)
     except Exception:
         return {'kind': kind, 'index': idx, 'crash': traceback.format_exc(), 'wall_s': time.time() - t0}
@@ -96,6 +115,35 @@ def report_to_dict(rep, vr, kind, wall):
         'inlined': sorted(vr.world.inlined),
         'solver_ms': round(vr.explorer.solver_ms, 1), 'branch_queries': vr.explorer.branch_queries,
     }
+
+
+def merge_parts(parts):
+    """Per-scenario partial reports of one function -> one report."""
+    out = {}
+    order = []
+    for p in parts:
+        if 'crash' in p:
+            order.append(p)
+            continue
+        key = (p['kind'], p['name'])
+        if key not in out:
+            out[key] = p
+            order.append(p)
+            continue
+        m = out[key]
+        m['records'].extend(p['records'])
+        m['paths'] += p['paths']
+        m['infeasible_scenarios'].extend(p['infeasible_scenarios'])
+        m['wall_s'] = round(max(m['wall_s'], p['wall_s']), 3)
+        m['cpu_s'] = round(m.get('cpu_s', 0) + p['wall_s'], 3)
+        m['unsupported'] = m['unsupported'] or p['unsupported']
+        for k, v in p['reach'].items():
+            m['reach'][k] = m['reach'].get(k, 0) + v
+        for k in ('trusted', 'dropped', 'inlined'):
+            m[k] = sorted(set(m[k]) | set(p[k]))
+        m['solver_ms'] += p['solver_ms']
+        m['branch_queries'] += p['branch_queries']
+    return order
 
 
 def load_known(pid):
@@ -170,24 +218,35 @@ def main():
     ap.add_argument('--repo', default='/repo')
     ap.add_argument('--write-baseline', action='store_true')
     ap.add_argument('--only', default='')
+    ap.add_argument('--no-evidence', action='store_true')
     ap.add_argument('--jobs', type=int, default=int(os.environ.get('PYVC_JOBS', '14')))
     args = ap.parse_args()
     pid = args.pid
     seed = int(os.environ.get('VERIF_SEED', '0'))
     t_start = time.time()
     sys.path.insert(0, HERE)
+    install_arena_shim()
     os.makedirs(os.path.join(HERE, 'evidence'), exist_ok=True)
     os.makedirs(os.path.join(HERE, 'replays'), exist_ok=True)
     mod = load_sidecar(pid)
     items = collect_items(mod)
     if args.only:
         items = [it for it in items if args.only in it[2]]
-    jobs = [(args.repo, pid, k, i) for k, i, _ in items]
+    from .vc import expand_scenarios
+    jobs = []
+    for k, i, _ in items:
+        obj = mod.CONTRACTS[i] if k == 'contract' else mod.LEMMAS[i]
+        n = len(expand_scenarios(obj.params))
+        if n > 1:
+            jobs.extend((args.repo, pid, k, i, si) for si in range(n))
+        else:
+            jobs.append((args.repo, pid, k, i, None))
     if jobs:
         with multiprocessing.Pool(min(args.jobs, len(jobs))) as pool:
-            reports = pool.map(worker, jobs, chunksize=1)
+            parts = pool.map(worker, jobs, chunksize=1)
     else:
-        reports = []
+        parts = []
+    reports = merge_parts(parts)
 
     exit_code = 0
     lines = []
@@ -384,9 +443,12 @@ def main():
         'wall_s': round(time.time() - t_start, 2),
         'violations': len(violations) + len(bounded_viol),
     }
-    if not args.only:
+    if not args.only and not args.no_evidence:
         with open(os.path.join(HERE, 'evidence', f'{pid}.json'), 'w') as f:
             json.dump(evidence, f, indent=1, default=str)
+    slow = sorted([(r.get('wall_s', 0), r.get('name', '?'), r.get('paths', 0)) for r in reports if 'crash' not in r],
+                  reverse=True)[:4]
+    print('slowest:', '; '.join(f'{n} {w:.1f}s/{p}paths' for w, n, p in slow))
     for ln in lines:
         print(ln)
     print(f'{pid}: obligations={n_obl} discharged={n_dis} queries={total_queries} '
